@@ -23,11 +23,21 @@ def _gen(self, a, kind):
   return None
 
 
+@H('vars')
+def b_vars(self, a, kw):
+  v = self.deref(a[0])
+  if isinstance(v, SV) and getattr(v.sort, 'vars_hook', None):
+    return v.sort.vars_hook(self, v)
+  raise OutsideSubset('vars() of this object')
+
+
 @H('len')
 def b_len(self, a, kw):
   v = self.deref(a[0])
   if isinstance(v, SV) and isinstance(v.sort, Union):
     v = self.unwrap(v)
+  if isinstance(v, _ObjCase) and v.ctor.tuple_like:
+    return len(v.ctor.fields)
   if isinstance(v, PyTuple):
     return len(v)
   if isinstance(v, Lit):
@@ -556,8 +566,15 @@ def seq_method(self, box, v, name, args):
   n = s.len(v.t)
   if name == 'append':
     x = self.coerce(self.escape(args[0]), s.elem)
-    nv = s.z3().mk(n + 1, z3.Store(s.z3().arr(v.t), n, x.t))
-    self.mutate(box, SV(s, nv))
+    # axiomatised (not Store) so that facts about old[j] carry over to new[j] by e-matching in
+    # both directions
+    r = s.const('app')
+    k = z3.Int(fresh_name('i'))
+    self.assume(s.len(r) == n + 1)
+    self.assume(s.get(r, n) == x.t)
+    self.assume(qforall([k], z3.Implies(z3.And(k >= 0, k < n), s.get(r, k) == s.get(v.t, k)), patterns=[s.get(r, k)]))
+    self.assume(qforall([k], z3.Implies(z3.And(k >= 0, k < n), s.get(r, k) == s.get(v.t, k)), patterns=[s.get(v.t, k)]))
+    self.mutate(box, SV(s, r))
     return NONEV
   if name == 'extend':
     o = self.deref(args[0])
